@@ -109,6 +109,7 @@ func verifPanicMsg() string               { return "" }
 func verifParam(name string) int          { return 0 }
 func verifObserve(tag string, s string)   {}
 func verifSteps() int                     { return 0 }
+func verifBudgetFails(msg string)          {}
 func verifIsSym(x any) bool               { return false }
 func verifConcretize(x int) int           { return x }
 func verifChoice(id string, n int) int    { return 0 }
